@@ -1272,6 +1272,9 @@ func runC10(c *Ctx) error {
 	if err := c10Reuse(c, timeout); err != nil {
 		return err
 	}
+	if err := c10CLI(c); err != nil {
+		return err
+	}
 	return c10Wide(c, timeout)
 }
 
